@@ -164,6 +164,20 @@ def mc_layer_b(wd, tag="b", deep=False):
     return out
 
 
+def mc_fat_inductive(wd):
+    """the table algebra behind C03/C05 for EVERY history of table mutations: Apalache shows the invariant of FatInd inductive (checked from an
+    arbitrary table satisfying it), TLC enumerates every table over N clusters and shows the invariant means exactly 'forest of simple
+    chains, nothing lost, count exact' (MC_FatInd: Meaning, Complete)"""
+    n_apa, n_enum = scale(6, 8), scale(5, 6)
+    out = {"spec": "FatInd", "inductive": core.apalache_inductive("FatInd", n_apa, wd, "fatind", timeout=scale(600, 3000))}
+    r = core.mc_run("MC_FatInd", "SPECIFICATION EnumSpec\nCONSTANT N = %d\nINVARIANT Meaning\nINVARIANT Complete\nCHECK_DEADLOCK FALSE\n" % n_enum,
+                    wd, "fatind", workers=8)
+    if not r["ok"]:
+        raise core.ToolError("MC_FatInd failed:\n" + r["out_tail"])
+    out["meaning"] = {"tool": "TLC", "N": n_enum, "tables_enumerated": r["distinct"], "invariants": ["Meaning", "Complete"], "wall": r["wall"]}
+    return out
+
+
 def mc_device(wd):
     """design-level model of C09 (Device.tla): straight-line propagation and the chain-freeing loop over a latching iterator"""
     cfg = "SPECIFICATION Spec\nCONSTANT ChainLen = %d\nCONSTANT Budget = 60\nCONSTANT Legacy = FALSE\nINVARIANT WithinBudget\nINVARIANT Surfaced\nPROPERTY Terminates\nCHECK_DEADLOCK FALSE\n" % scale(6, 12)
@@ -427,7 +441,7 @@ def c05():
     core.finish("C05", LEVEL, res, mc_layer_b(wd), t0,
                 "fill-to-full / delete-all cycles on tiny volumes plus mixed programs with statistics probes; TLC compares the reported count with the "
                 "table of the raw image and judges every NotEnoughSpace against the pre-state",
-                ASSUME_TRACE)
+                ASSUME_TRACE, extra_cov={"inductive_invariant": mc_fat_inductive(wd)})
 
 
 def status_off(kname):
@@ -1066,6 +1080,14 @@ def selftest(args):
     good = (not r["ok"]) and "WithinBudget" in r["violated"]
     ok = ok and good
     print("Device Legacy=TRUE        expected counterexample to WithinBudget %s" % ("ok" if good else "MISSED"))
+    try:
+        core.apalache_inductive("FatInd", 5, wd, "st", mutate=("![t] = c, ![c] = -1]\n        /\\ heads' = heads\n        /\\ free' = free - 1",
+                                                               "![t] = c, ![c] = -1]\n        /\\ heads' = heads\n        /\\ free' = free"))
+        good = False
+    except core.ToolError as e:
+        good = ": Error" in str(e)
+    ok = ok and good
+    print("FatInd Extend without count update: expected Apalache to refute the inductive step %s" % ("ok" if good else "MISSED"))
     c0 = b_conformance(wd, 10)
     c1 = b_conformance(wd, 10, corrupt=True)
     good = c0["compared"] > 50 and c0["drift"] == 0 and c1["drift"] == c1["behaviours"]
